@@ -407,25 +407,34 @@ Section Resolve.
     match p_segs p with (s, _) :: _ => s | [] => "" end.
   Definition first_seg_span (p : path) : span := i_span (p_info p).
 
-  (** [DeriveInputShapeSet::from_list]: the first bad word returns. *)
-  Fixpoint di_words (d : di_shape_set) (items : list nested) : res di_shape_set :=
+  (** a shape word is a single identifier ([struct_named::x] is not [struct_named]) *)
+  Definition not_a_word (p : path) : err := with_span (i_span (p_info p)) (unknown_value (path_to_string p)).
+
+  (** [DeriveInputShapeSet::from_list]: every bad word is reported. *)
+  Fixpoint di_words (d : di_shape_set) (items : list nested) : di_shape_set * list err :=
     match items with
-    | [] => Ok d
+    | [] => (d, [])
     | NPath i p :: r =>
-        let w := first_seg p in
-        if str_eqb w "any" then di_words (di_set WAny d) r
-        else if String.prefix "enum_" w then
-          match shape_word_of (strip_prefix "enum_" w) with
-          | Some sw => di_words (di_set (WEnum sw) d) r
-          | None => Err (with_span (i_span (p_info p)) (unknown_value w))
-          end
-        else if String.prefix "struct_" w then
-          match shape_word_of (strip_prefix "struct_" w) with
-          | Some sw => di_words (di_set (WStruct sw) d) r
-          | None => Err (with_span (i_span (p_info p)) (unknown_value w))
-          end
-        else Err (with_span (i_span (p_info p)) (unknown_value w))
-    | n :: _ => Err (with_span (i_span (ninfo n)) (unsupported_format "non-word"))
+        match get_ident p with
+        | None => let '(d', es) := di_words d r in (d', not_a_word p :: es)
+        | Some w =>
+            let bad := let '(d', es) := di_words d r in (d', with_span (i_span (p_info p)) (unknown_value w) :: es) in
+            if str_eqb w "any" then di_words (di_set WAny d) r
+            else if String.prefix "enum_" w then
+              match shape_word_of (strip_prefix "enum_" w) with
+              | Some sw => di_words (di_set (WEnum sw) d) r
+              | None => bad
+              end
+            else if String.prefix "struct_" w then
+              match shape_word_of (strip_prefix "struct_" w) with
+              | Some sw => di_words (di_set (WStruct sw) d) r
+              | None => bad
+              end
+            else bad
+        end
+    | n :: r =>
+        let '(d', es) := di_words d r in
+        (d', with_span (i_span (ninfo n)) (unsupported_format "non-word") :: es)
     end.
 
   (** [DataShape::from_list]: accumulates. *)
@@ -433,9 +442,13 @@ Section Resolve.
     match items with
     | [] => (d, [])
     | NPath i p :: r =>
-        match shape_word_of (first_seg p) with
-        | Some sw => ds_words (ds_set sw d) r
-        | None => let '(d', es) := ds_words d r in (d', unknown_value (first_seg p) :: es)
+        match get_ident p with
+        | None => let '(d', es) := ds_words d r in (d', not_a_word p :: es)
+        | Some w =>
+            match shape_word_of w with
+            | Some sw => ds_words (ds_set sw d) r
+            | None => let '(d', es) := ds_words d r in (d', unknown_value w :: es)
+            end
         end
     | n :: r =>
         let '(d', es) := ds_words d r in
@@ -449,7 +462,9 @@ Section Resolve.
   Definition conv_supports_di (mi : nested) : res di_shape_set :=
     match mi with
     | NPath i _ => Err (with_span (i_span i) (unsupported_format "word"))
-    | NList i _ _ items => map_err (with_span (i_span i)) (di_words (mkDI ds_empty ds_empty false) items)
+    | NList i _ _ items =>
+        let '(d, es) := di_words (mkDI ds_empty ds_empty false) items in
+        match es with [] => Ok d | _ => Err (with_span (i_span i) (bundle_errs es)) end
     | NBadList _ _ _ es msg => Err (from_syn es msg)
     | NNameValue i _ e => map_err (with_span (i_span i)) (map_ok (fun _ => mkDI ds_empty ds_empty false)
                                                                  (default_from_expr fm_default e))
